@@ -332,8 +332,9 @@ class CSSStyleSheet(cssutils.stylesheets.StyleSheet):
             {
                 'S': S,
                 'COMMENT': COMMENT,
-                'CDO': lambda *ignored: None,
-                'CDC': lambda *ignored: None,
+                # ignored like S, must keep (not reset) expected
+                'CDO': S,
+                'CDC': S,
                 'CHARSET_SYM': charsetrule,
                 'FONT_FACE_SYM': fontfacerule,
                 'IMPORT_SYM': importrule,
